@@ -173,6 +173,19 @@ def generate(rng, tier):
             pos = rng.randrange(0, len(seq) + 1)
             mixed = seq[:pos] + [(ov, v, p, _form(rng, W[ov], p))] + seq[pos:]
             add(mixed, 'err/mixed')
+    for _ in range(150 * mult):
+        # which error comes first: an element of the other family and an element that is no network, at
+        # independent positions (the code converts the first two at once and the others one by one inside its loop)
+        ver = rng.choice((4, 6))
+        seq = _base_seq(rng, ver)[:rng.choice((1, 2, 2, 3, 4))]
+        ov = 10 - ver
+        extra = [(ov, rand_value(rng, W[ov]), W[ov], rng.choice(['astr', 'addr', 'net'])),
+                 (ver, rand_value(rng, W[ver]), W[ver], rng.choice(_BADFORMS))]
+        if rng.random() < 0.3:
+            extra.append((ver, rand_value(rng, W[ver]), W[ver], rng.choice(_BADFORMS)))
+        for x in extra:
+            seq.insert(rng.randrange(len(seq) + 1), x)
+        cases.append(_case(seq, 'err/order', rng.choice(['list', 'tuple', 'iter']), raw=True))
     return cases
 
 
